@@ -20,6 +20,7 @@ import (
 	"google.golang.org/protobuf/reflect/protoreflect"
 	"google.golang.org/protobuf/reflect/protoregistry"
 	"google.golang.org/protobuf/runtime/protoiface"
+	"google.golang.org/protobuf/runtime/protoimpl"
 	"google.golang.org/protobuf/types/dynamicpb"
 )
 
@@ -535,7 +536,10 @@ func (r *codecRunner) run(op Op) {
 					} else if e1 == nil {
 						set := func(m protoreflect.Message) string {
 							var ns []int
-							m.Range(func(fd protoreflect.FieldDescriptor, _ protoreflect.Value) bool { ns = append(ns, int(fd.Number())); return true })
+							m.Range(func(fd protoreflect.FieldDescriptor, _ protoreflect.Value) bool {
+								ns = append(ns, int(fd.Number()))
+								return true
+							})
 							sort.Ints(ns)
 							return fmt.Sprint(ns)
 						}
@@ -668,6 +672,18 @@ func (r *codecRunner) run(op Op) {
 		v3 := proto.Clone(r.p)
 		plantEmpty(reflect.ValueOf(v3))
 		variants = append(variants, v3)
+		// ... and with strings that are not valid UTF-8 (encoders may refuse them; nothing rewrites them)
+		v4 := proto.Clone(r.p)
+		spoilStrings(reflect.ValueOf(v4))
+		variants = append(variants, v4)
+		// ... and with every oneof holding a typed-nil wrapper ((*T_Member)(nil): a Go state protobuf-go's
+		// own getters panic on; calls that panic on it are not judged, calls that return must not
+		// have "repaired" it)
+		typedNil := -1
+		if v5 := proto.Clone(r.p); plantTypedNilWrappers(v5) > 0 {
+			typedNil = len(variants)
+			variants = append(variants, v5)
+		}
 		for vi, m := range variants {
 			calls := map[string]func(){
 				"Size":       func() { proto.Size(m) },
@@ -718,6 +734,9 @@ func (r *codecRunner) run(op Op) {
 				pn := catch(f)
 				after := snapshot(reflect.ValueOf(m))
 				e.ROCalls++
+				if pn != "" && vi == typedNil {
+					continue
+				}
 				if pn != "" {
 					e.ROChanged = append(e.ROChanged, fmt.Sprintf("%s(variant %d): panic %s", name, vi, pn))
 				} else if before != after {
@@ -1022,6 +1041,13 @@ func randomCodecPlan(g *val.Gen, mt protoreflect.MessageType, mode string, emit 
 		emit(Op{Op: "unmarshal", In: proj.Bytes(x), Discard: true, Tag: "discard"})
 		emit(Op{Op: "marshal", Det: true, Tag: "discard"})
 		emit(Op{Op: "unmarshal", In: proj.Bytes(x), Merge: true, Discard: g.R.Intn(2) == 0, Tag: "discard-merge"})
+		// DiscardUnknown concerns the records of THIS input: merged with it onto a message that
+		// already holds unknown records (at the top and in its children), those stay
+		emit(Op{Op: "unmarshal", In: proj.Bytes(x), Tag: "unknown"})
+		if nb, err := (proto.MarshalOptions{Deterministic: true}).Marshal(g.Mutate(d)); err == nil {
+			emit(Op{Op: "unmarshal", In: proj.Bytes(g.InjectUnknown(md, nb, 0)), Merge: true, Discard: true, Tag: "discard-merge-onto-unknown"})
+			emit(Op{Op: "marshal", Det: true, Tag: "discard-merge-onto-unknown"})
+		}
 		// a caller-set recursion limit that the input fits exactly: every option still applies at
 		// the deepest level
 		if dm := dynamicpb.NewMessage(md); proto.Unmarshal(x, dm) == nil {
@@ -1238,6 +1264,82 @@ func plantEmpty(v reflect.Value) {
 			}
 		case reflect.Ptr:
 			plantEmpty(f)
+		}
+	}
+}
+
+// plantTypedNilWrappers sets every oneof field of the (top-level) struct to a typed-nil pointer of
+// its first wrapper type, taken from the OneofWrappers the generated file registers.
+func plantTypedNilWrappers(m proto.Message) int {
+	mt, err := protoregistry.GlobalTypes.FindMessageByName(m.ProtoReflect().Descriptor().FullName())
+	if err != nil {
+		return 0
+	}
+	mi, ok := mt.(*protoimpl.MessageInfo)
+	if !ok || mi.GoReflectType == nil || fmt.Sprintf("%T", m) != mi.GoReflectType.String() {
+		return 0
+	}
+	v := reflect.ValueOf(m).Elem()
+	n := 0
+	for i := 0; i < v.NumField(); i++ {
+		f := v.Field(i)
+		if f.Kind() != reflect.Interface || v.Type().Field(i).Tag.Get("protobuf_oneof") == "" {
+			continue
+		}
+		for _, w := range mi.OneofWrappers {
+			if wt := reflect.TypeOf(w); wt.Implements(f.Type()) {
+				f.Set(reflect.Zero(wt))
+				n++
+				break
+			}
+		}
+	}
+	return n
+}
+
+// spoilStrings makes every string the struct holds (singular fields, list elements, oneof
+// members, nested messages) invalid UTF-8: a state any Go caller can build, which encoders may
+// refuse but which read-only calls must leave as it is.
+func spoilStrings(v reflect.Value) {
+	if v.Kind() == reflect.Ptr || v.Kind() == reflect.Interface {
+		if v.IsNil() {
+			return
+		}
+		v = v.Elem()
+		if v.Kind() == reflect.Ptr {
+			spoilStrings(v)
+			return
+		}
+	}
+	if v.Kind() != reflect.Struct {
+		return
+	}
+	for i := 0; i < v.NumField(); i++ {
+		f := v.Field(i)
+		sf := v.Type().Field(i)
+		if sf.PkgPath != "" || (sf.Tag.Get("protobuf") == "" && sf.Tag.Get("protobuf_oneof") == "") {
+			continue
+		}
+		switch f.Kind() {
+		case reflect.String:
+			f.SetString("\xff\xfe" + f.String())
+		case reflect.Slice:
+			for j := 0; j < f.Len(); j++ {
+				switch f.Index(j).Kind() {
+				case reflect.String:
+					f.Index(j).SetString("\xc3" + f.Index(j).String())
+				case reflect.Ptr:
+					spoilStrings(f.Index(j))
+				}
+			}
+		case reflect.Map:
+			if f.Type().Elem().Kind() == reflect.Ptr {
+				for _, k := range f.MapKeys() {
+					spoilStrings(f.MapIndex(k))
+				}
+			}
+		case reflect.Ptr, reflect.Interface:
+			spoilStrings(f)
 		}
 	}
 }
